@@ -173,7 +173,7 @@ def string_argument_family():
 def plan(tier, seed):
     specs = [("micro", "lists"), ("micro", "values", 0), ("micro", "values", 1), ("micro", "values", 2), ("micro", "values", 3),
              ("micro", "keywords"), ("micro", "strings")]
-    n = 3200 if tier == "quick" else 60000
+    n = 12000 if tier == "quick" else 200000
     for i in range(32):
         specs.append(("random", n // 32, i))
     return specs
@@ -221,7 +221,7 @@ def main(tier, seed):
               "comments and optional commas) and compiled; plus exhaustive micro-families (lists of 0-3 elements, enumerator value "
               "patterns of length <= 3, every keyword as identifier, string arguments). distinct_nontrivial = distinct programs"
               % (4 if tier == "quick" else 12)),
-        required={"programs": 500, "compilations": 2000, "definitions_compared": 1000, "micro_value_patterns": 500,
+        required={"programs": 5000, "compilations": 20000, "definitions_compared": 10000, "micro_value_patterns": 500,
                   "micro_keyword_cases": 30, "micro_list_cases": 20, "micro_string_cases": 20},
         assumptions=["the identifier invented for an unnamed single return value is not compared",
                      "a backslash in a string argument escapes the next character whatever it is (the statement only says 'unescaped')"],
